@@ -23,7 +23,7 @@ ASSUMPTIONS = [
 REQUIRED = ['warm_dispatch_after_add', 'warm_dispatch_after_rm', 'warm_dispatch_after_reg', 'warm_dispatch_after_unreg',
             'detached_subtree_dispatch', 'instance_channel_dispatch', 'global_handler_dispatch', 'inherited_handler_dispatch',
             'implicit_method_dispatch', 'ops_inside_handlers', 'pre_registration_event', 'fire_overlapping_unregister',
-            'same_event_object_fired_on_two_channels']
+            'same_event_object_fired_on_two_channels', 'channels_preset_on_event']
 REQUIRED_OBLIGATIONS = ['EXACT_SET']
 WORKER_TIMEOUT = {'quick': 300, 'thorough': 1500}
 
@@ -213,7 +213,7 @@ class World:
     def do(self, op, inside=False):
         kind = op[0]
         if kind == 'fire':
-            _, x, name, ch = op
+            x, name, ch = op[1], op[2], op[3]
             ev = self.Event.create(name)
             self.uid += 1
             ev._vuid = self.uid
@@ -223,7 +223,12 @@ class World:
             if self.parent[x] is None and self.subtree(x) == [x] and not inside:
                 self.marks_pre = getattr(self, 'marks_pre', set())
                 self.marks_pre.add(x)
-            if isinstance(mch, tuple):
+            if len(op) > 4 and op[4] == 'preset' and ch is not None:
+                # the target channel is carried by the event itself (Event.channels set before firing), fire() gets no channel
+                self.marks.add('channels_preset_on_event')
+                ev.channels = (self.comps[mch[1]],) if isinstance(mch, tuple) else (ch,)
+                self.comps[x].fire(ev)
+            elif isinstance(mch, tuple):
                 self.marks.add('instance_channel_dispatch')
                 self.comps[x].fire(ev, self.comps[mch[1]])
             elif ch is None:
@@ -451,7 +456,8 @@ def corpus():
         ['reg', 1, 0], ['reg', 2, 0], [F, 0, 'ping', 'a'], [F, 0, 'ping', 'b'], [F, 0, 'ping', '*'], [F, 0, 'ping', None], S,
         [F, 0, 'ping', ['inst', 1]], [F, 0, 'ping', ['inst', 2]], [F, 0, 'ping', ['inst', 0]], S,
         [F, 1, 'ping', None], [F, 2, 'ping', None], [F, 0, 'zap', 'b'], [F, 0, 'zap', 'c'], S,
-        [F, 0, 'ping', 'a'], [F, 0, 'ping', 'b'], [F, 0, 'ping', ['inst', 1]], S]})
+        [F, 0, 'ping', 'a'], [F, 0, 'ping', 'b'], [F, 0, 'ping', ['inst', 1]], S,
+        [F, 0, 'ping', 'b', 'preset'], [F, 1, 'ping', 'a', 'preset'], [F, 2, 'ping', ['inst', 1], 'preset'], [F, 0, 'zap', '*', 'preset'], S]})
     # 4b. one event object fired to two channels before dispatch (the memo must be keyed by the channels of the queue entry)
     cs_ = {'name': 'same-object-two-channels', 'comps': [comp(0, None, []), comp(1, 'a', [H(1, ['ping'])]), comp(2, 'b', [H(2, ['ping'])]),
                                                          comp(3, 'c', [H(3, ['ping']), H(4, ['ping'], '*')])], 'ops': [
@@ -536,6 +542,8 @@ def gen_case(rng):
             if c1 != c2:
                 return ['fire2', x, rng.choice(NAMES), c1, c2]
         if r < 0.45:
+            if rng.random() < 0.15:
+                return ['fire', x, rng.choice(NAMES), rnd_ch(), 'preset']
             return ['fire', x, rng.choice(NAMES), rnd_ch()]
         if r < 0.58:
             hid[0] += 1
